@@ -11,7 +11,7 @@ struct DashState {
     remaining_length: f32, // how much of the dash remains
 }
 
-pub fn dash_path(path: &Path, dash_array: &[f32], mut dash_offset: f32) -> Path {
+pub fn dash_path(path: &Path, dash_array: &[f32], dash_offset: f32) -> Path {
     let mut dashed = PathBuilder::new();
 
     let mut cur_pt = None;
@@ -34,9 +34,18 @@ pub fn dash_path(path: &Path, dash_array: &[f32], mut dash_offset: f32) -> Path 
 
     // Handle large positive and negative offsets so that we don't loop for a high number of
     // iterations below in extreme cases
-    dash_offset = dash_offset % total_dash_length;
+    // Do this in f64: the sum of large (finite) f32 entries can overflow f32 to infinity,
+    // and a negative offset plus an infinite period would never be consumed below.
+    let mut period = 0f64;
+    for dash in dash_array {
+        period += *dash as f64;
+    }
+    if dash_array.len() % 2 == 1 {
+        period *= 2.;
+    }
+    let mut dash_offset = dash_offset as f64 % period;
     if dash_offset < 0. {
-        dash_offset += total_dash_length;
+        dash_offset += period;
     }
 
     // To handle closed paths we need a bunch of extra state so that we properly
@@ -54,15 +63,15 @@ pub fn dash_path(path: &Path, dash_array: &[f32], mut dash_offset: f32) -> Path 
     };
 
     // adjust our position in the dash array by the dash offset
-    while dash_offset > state.remaining_length {
+    while dash_offset > state.remaining_length as f64 {
         #[cfg(feature = "verif")]
         crate::verif::tick(crate::verif::TickSite::DashOffset);
-        dash_offset -= state.remaining_length;
+        dash_offset -= state.remaining_length as f64;
         state.index += 1;
         state.remaining_length = dash_array[state.index % dash_array.len()];
         state.on = !state.on;
     }
-    state.remaining_length -= dash_offset;
+    state.remaining_length -= dash_offset as f32;
 
     // Save a copy of the initial state so that we can restore it for each subpath
     let initial = state;
